@@ -635,7 +635,9 @@ HAND_TASK_OWNERS = re.compile(r"^(Quat[fd]Array|M44[fd]Array|M33[fd]Array|M22[fd
 def is_always(e):
     """exercised in EVERY quick run (not seed-rotated): the owners of the hand-written Task structs (PyImathQuat.cpp,
     PyImathMatrix*.cpp, PyImathBox.cpp, PyImathFrustum.cpp) and the many-array constructors"""
-    if e.owner and HAND_TASK_OWNERS.match(e.owner) and not CORE_NAMES.match(e.name):
+    # (every entry point of those owners, the operators included: QuatArray's `V3Array * QuatArray`, M44Array's products, …
+    # are hand-written Task structs too; a round-3 seeded change sat in one that the seed rotation happened not to select)
+    if e.owner and HAND_TASK_OWNERS.match(e.owner) and not is_core(e):
         return True
     # the vector operations that have failure inputs (zero / denormal / overflowing vectors): array and scalar forms are
     # different functions there (op_vecNormalized* vs Vec::normalized*)
